@@ -41,7 +41,8 @@ Require Import Grits.Base Grits.Forms Grits.STypes Grits.Runtime.
 Require Import Grits.spec.Sax Grits.proofs.Causality Grits.proofs.SaxRefine Grits.proofs.SaxInv Grits.proofs.C04Examples.
 Require Import Grits.Expand Grits.TcTop Grits.spec.RtTyping Grits.spec.Topo Grits.proofs.RtTheorems Grits.proofs.RtTcSyn
                Grits.proofs.TopoLin Grits.proofs.TopoStep Grits.proofs.TopoReach Grits.proofs.AsyncSync Grits.proofs.SaxTyped Grits.proofs.DeterminismAll
-               Grits.proofs.InitAccept Grits.proofs.SaxAccept Grits.proofs.InvAll Grits.proofs.SaxDrop Grits.proofs.SaxSplit.
+               Grits.proofs.InitAccept Grits.proofs.SaxAccept Grits.proofs.InvAll Grits.proofs.SaxDrop Grits.proofs.SaxSplit
+               Grits.proofs.DeterminismNP Grits.proofs.SaxNP.
 
 Theorem C04_trace_causal : forall md (p : program) fuel pick r tr,
   exec_trace fuel pick md (p_types p) (p_funs p) (init_config p) [] = (r, tr) ->
@@ -255,6 +256,36 @@ Example C04_ex_all :
   c04_all_text ex_text = true.
 Proof. vm_compute. repeat split; reflexivity. Qed.
 
+(* ------------------------------------------------------------------ NON-POLARIZED mode (proofs/SaxNP.v).  Plain programs (no forward, no drop,
+   no split in any body, one provider name per process: DeterminismNP.plain_src_b on the SOURCE program): the NP run
+   under any oracle IS the synchronous run under that oracle (PlainNP.plain_run_eq), so the labels of every NP run are
+   printed by spec/Sax.v from sax_init p'.  plain_src_b implies single_decls p' (plain_src_single_decls). *)
+Theorem C04_prints_admitted_np_plain : forall txt p p',
+  parse_string txt = POk p -> typecheck p = Accept p' -> in_fragment p' -> plain_src_b p = true ->
+  forall fuel pick, exists C',
+    sax_steps (p_funs p') true (sax_init p')
+      (labels (res_config (exec_run fuel pick NP (p_types p') (p_funs p') (init_config p')))) C'.
+Proof. exact prints_admitted_np_plain. Qed.
+
+Theorem C04_results_unique_admitted_np_plain : forall txt p p' pick1 f1 t1,
+  parse_string txt = POk p -> typecheck p = Accept p' -> in_fragment p' -> plain_src_b p = true ->
+  exec_run f1 pick1 NP (p_types p') (p_funs p') (init_config p') = RQuiescent t1 ->
+  (exists C', sax_steps (p_funs p') true (sax_init p') (labels t1) C') /\
+  (forall pick2 f2, (f1 <= f2)%nat ->
+     exists t2, exec_run f2 pick2 NP (p_types p') (p_funs p') (init_config p') = RQuiescent t2 /\ labels t2 ≡ₚ labels t1).
+Proof. exact results_unique_admitted_np_plain. Qed.
+
+(* the premises as one computable verdict on the text (driver `c04np`); ALL THREE modes *)
+Theorem C04_prints_admitted_np_plain_text : forall txt, c04_np_plain_text txt = true ->
+  exists p p', parse_string txt = POk p /\ typecheck p = Accept p' /\
+  forall md fuel pick, exists C',
+    sax_steps (p_funs p') true (sax_init p')
+      (labels (res_config (exec_run fuel pick md (p_types p') (p_funs p') (init_config p')))) C'.
+Proof. exact prints_admitted_np_plain_text. Qed.
+
+Example C04_ex_np_plain : c04_np_plain_text RtTheorems.example_text = true.
+Proof. vm_compute. reflexivity. Qed.
+
 Theorem C04_tres_from_typing : forall D F teq, teq_laws D teq -> funs_typed D F teq ->
   forall Δ c, cfg_typed D F teq Δ c -> Topo c -> tres D c.
 Proof. exact tres_typed_topo. Qed.
@@ -366,6 +397,10 @@ Print Assumptions C04_prints_admitted_all.
 Print Assumptions C04_prints_admitted_all_text.
 Print Assumptions C04_results_unique_admitted_all.
 Print Assumptions C04_ex_all.
+Print Assumptions C04_prints_admitted_np_plain.
+Print Assumptions C04_results_unique_admitted_np_plain.
+Print Assumptions C04_prints_admitted_np_plain_text.
+Print Assumptions C04_ex_np_plain.
 Print Assumptions C04_tres_from_typing.
 Print Assumptions C04_core_invariant_gives_Inv.
 Print Assumptions C04_refines_sax_core.
